@@ -612,6 +612,43 @@ class Prop(object):
                                {'cipher': case['cipher'], 'depth': case['depth'], 'only': list(seq[:step + 1]), 'target': target},
                                '%s message, attempts %s on one object: attempt #%d (%s) gave %s, expected %s' % (target, list(seq[:step + 1]), step + 1, op, oc, want))
                         break
+        # the same object edited in place after it has been opened once: every octet of the live ciphertext buffer (one bit each), then both right
+        # secrets again - an earlier success says nothing about the octets that are there now
+        if not case.get('only') or case.get('target') == 'edited-in-place':
+            for first in ('right-pass', 'right-key'):
+                e = pgpy.PGPMessage.from_blob(blob)
+                opened = {'right-pass': lambda: e.decrypt(R.PASSPHRASE), 'right-key': lambda: R.key_recipient('cv25519')[0].decrypt(e)}
+                try:
+                    ok = A.msg_view(opened[first]()) == self._view(m)
+                except A.HarnessBinding:
+                    raise
+                except Exception:
+                    ok = False
+                if not ok:
+                    r.viol('sequence', {'where': 'sequence', 'op': first, 'got': 'error', 'target': 'edited-in-place', 'first_step': True},
+                           {'cipher': case['cipher'], 'depth': case['depth'], 'only': [first], 'target': 'edited-in-place'}, 'intact message does not open (%s)' % first)
+                    continue
+                buf = A.encrypted_buffer(e)
+                for i in range(len(buf)):
+                    if case.get('octet') is not None and case['octet'] != i:
+                        continue
+                    buf[i] ^= 0x04
+                    r.states += 1
+                    for op in ('right-pass', 'right-key'):
+                        r.transitions += 1
+                        try:
+                            d = opened[op]()
+                            oc = 'same' if (d is not e and A.msg_view(d) == self._view(m)) else 'different'
+                        except A.HarnessBinding:
+                            raise
+                        except Exception:
+                            oc = 'error'
+                        r.outcomes['edited-in-place:%s' % oc] += 1
+                        if oc == 'different':
+                            r.viol('sequence', {'where': 'sequence', 'op': op, 'got': oc, 'target': 'edited-in-place', 'first_step': False},
+                                   {'cipher': case['cipher'], 'depth': case['depth'], 'only': [first, op], 'target': 'edited-in-place', 'octet': i},
+                                   'message object opened once (%s), octet %d of its ciphertext then changed in place: %s returns another plaintext' % (first, i, op))
+                    buf[i] ^= 0x04
         r.dim('cipher', case['cipher'])
         r.samples.append({'sequence': list(seqs[-1]), 'menu': menu})
         return r
